@@ -631,7 +631,7 @@ func (c *Ctx) checkIOFlags(r *Report) {
 
 func init() {
 	register("C17", &propDef{
-		explain: "Confinement proof by call-graph reachability and value flow: the extension registry is resolved from the registration code (extreg); for each callback registered outside the UnrestrictedIOs guard every reachable file-system/process primitive must take a constant grol.png or a name produced by sanitizeFileName on its success edge; sanitizeFileName itself is verified path by path (full byte loop, predicate evaluated on all 256 bytes, emptyOnly and unrestricted edges); flags are written only from the matching Config fields. Decides who may touch which path, for all programs and names.",
+		explain: "Confinement proof by call-graph reachability and value flow: the extension registry is resolved from the registration code (extreg); for each callback registered outside the UnrestrictedIOs guard every reachable file-system/process primitive must take a constant grol.png or a name produced by sanitizeFileName on its success edge; sanitizeFileName itself is verified path by path (full byte loop, predicate evaluated on all 256 bytes, emptyOnly and unrestricted edges); flags are written only from the matching Config fields. Decides who may touch which path, for all programs and names. The byte-predicate folder evaluates lookup tables (keyed literals and the range-fill initialiser idiom); an unfoldable predicate is undecided.",
 		assume:  []string{"calls through function values inside callbacks are not followed (none exist in the callbacks' reach today except the interpreter re-entry, which is cut)", "OS path semantics of a plain [A-Za-z0-9_]*.gr name: it denotes a file in the current directory", "time.LoadLocation reads only the tz database"},
 		run:     runC17,
 	})
